@@ -64,6 +64,8 @@ def cfg_for(rng, k):
     c.digit_fields = 0.3
     c.basename_differs = 0.3
     c.extensible = k % 2 == 0
+    if k % 6 == 5:
+        c.n_imports, c.p_odd_basename = (1, 2), 1.0   # imported files named my-shared.bitproto, defs-v2.bitproto: output files carry the base name verbatim
     if k % 4 == 3:
         c.digit_names = 0.4   # Cage2, Axle9: how a digit is split off in UPPER_SNAKE is the compiler's business, the prefix twin must agree with it
     return c
@@ -148,7 +150,10 @@ def worker(ctx):
                         continue
                     judge_c(ctx, g, d, mode, wit)
                 judge_go(ctx, g, od, wit)
-            judge_py(ctx, root, od, wit)
+            if all(g.basename.isidentifier() for g in files):
+                judge_py(ctx, root, od, wit)
+            else:
+                res.count("cases_with_file_names_that_are_no_identifiers")   # (Python cannot import such a module: C10 known finding; names of files, C and Go are judged)
             # ---- prefix changes nothing else ----------------------------------------------------------------
             if any(c_prefix(g) for g in files):
                 twin = without_prefix(root)
@@ -378,5 +383,5 @@ if __name__ == "__main__":
               "twin, struct members, sizeof/offsetof and encoded bytes (real builds through drivers written against the documented names) unchanged"),
         assumptions=["vlib/refnames.py is my reading of docs/*-guide.rst and the statement; nested enum/alias names in Go are compared normalised (docs do not fix them)"],
         required_counters=["c_headers_checked", "c_symbol_tables_checked", "go_files_checked", "python_modules_checked", "python_classes_checked", "file_sets_checked",
-                           "cases_with_prefix", "prefix_twins_compared", "prefix_bytes_compared", "prefix_twin_name_sets_compared", "cases_with_digit_bearing_type_names"],
+                           "cases_with_prefix", "prefix_twins_compared", "prefix_bytes_compared", "prefix_twin_name_sets_compared", "cases_with_digit_bearing_type_names", "cases_with_file_names_that_are_no_identifiers"],
     )
